@@ -305,6 +305,51 @@ def merge_obligations(pid, tier, seed):
                                            '{none, R1} for original/new when <= 5', 'malformed_palette': 12}}
 
 
+# ---------------------------------------------------------------------------
+# C10: set algebra
+
+def setop_obligations(pid, tier, seed):
+    obs = []
+    t = 200 if tier == 'quick' else 1200
+    mx = 2 if tier == 'quick' else 3
+    kinds = ['Set', 'TreeSet', 'Bucket', 'BTree', 'list', 'iter', 'None']
+    for impl in ('c', 'py'):
+        for ka in kinds:
+            for kb in kinds:
+                for na in range(0, mx + 1):
+                    for nb in range(0, mx + 1):
+                        if (ka == 'None' and na) or (kb == 'None' and nb):
+                            continue
+                        if tier == 'quick' and na + nb > 3 and ('list' in (ka, kb) or 'iter' in (ka, kb)) and not (na == 2 and nb == 2 and ka != kb):
+                            continue
+                        # multi-leaf trees need 3 keys at leaf size 2
+                        args = [('a%d' % i, 'int') for i in range(na)] + [('b%d' % i, 'int') for i in range(nb)]
+                        pre = []
+                        if ka in ('Set', 'TreeSet', 'Bucket', 'BTree') and na > 1:
+                            pre.append(' < '.join('a%d' % i for i in range(na)))
+                        if kb in ('Set', 'TreeSet', 'Bucket', 'BTree') and nb > 1:
+                            pre.append(' < '.join('b%d' % i for i in range(nb)))
+                        P = dict(impl=impl, ka=ka, kb=kb, na=na, nb=nb)
+                        obs.append(dict(id='%s/%s/%s-%s/%d%d' % (pid, impl, ka, kb, na, nb), mod='h_setop', fn='setop_case',
+                                        nk=0, args=args, pre=pre, params=P, timeout=t))
+        # multi-leaf tree operands (3 keys at leaf size 2) against every kind, also in the quick tier
+        if tier == 'quick':
+            for ka, kb in (('TreeSet', 'TreeSet'), ('BTree', 'TreeSet'), ('TreeSet', 'BTree'), ('Set', 'BTree'), ('TreeSet', 'list'),
+                           ('BTree', 'Bucket'), ('list', 'TreeSet'), ('TreeSet', 'Set')):
+                for na, nb in ((3, 2), (3, 3)) if ka != 'list' else ((2, 3),):
+                    args = [('a%d' % i, 'int') for i in range(na)] + [('b%d' % i, 'int') for i in range(nb)]
+                    pre = []
+                    if ka != 'list':
+                        pre.append(' < '.join('a%d' % i for i in range(na)))
+                    if kb != 'list':
+                        pre.append(' < '.join('b%d' % i for i in range(nb)))
+                    P = dict(impl=impl, ka=ka, kb=kb, na=na, nb=nb)
+                    obs.append(dict(id='%s/%s/%s-%s/%d%d' % (pid, impl, ka, kb, na, nb), mod='h_setop', fn='setop_case',
+                                    nk=0, args=args, pre=pre, params=P, timeout=t))
+    return {'obligations': obs, 'bounds': {'max_keys_per_operand': mx if tier != 'quick' else '2 (3 for tree operands)',
+                                           'operand_kinds': kinds, 'node_sizes': [2, 2]}}
+
+
 COMMON_ASSUME = [
     'key objects are observed by the containers only through rich comparison, identity and None-ness '
     '(true for the object-key templates; native-key families are covered by their own obligations where stated)',
@@ -382,5 +427,21 @@ PROPS = {
                    'Bucket._p_resolveConflict, Set._p_resolveConflict, _Tree._p_resolveConflict, _get_simple_btree_bucket_state, _SetIteration'],
         assumptions=['persistent references to the successor leaf are modelled by plain objects compared by identity, one instance '
                      'per reference per resolution (as ZODB\'s conflict resolution supplies them)'],
+    ),
+    'C10': dict(
+        families=['OO'],
+        gen=lambda tier, seed: setop_obligations('C10', tier, seed),
+        explanation='union/intersection/difference (module functions), the operators | & - ^ and the in-place forms |= &= -= ^= of '
+                    'the real compiled and pure-Python code are executed on two operands of every kind (Set, TreeSet, Bucket, BTree, '
+                    'plain list, iterator, None) whose keys are symbolic: container operands hold strictly increasing symbols, '
+                    'list/iterator operands unordered symbols, so every interleaving pattern, every permutation and every '
+                    'duplicate pattern is a solver-enumerated path. Asserted per path: keys equal the list-based mathematical '
+                    'result, strictly ascending, documented result kind, difference keeps the first operand\'s values, None rules '
+                    '(identity), result is new, operands that are not the in-place target are unchanged (element identity and order).',
+        functions=['_OOBTree.so: set_operation, initSetIteration, nextBucket/nextSet/nextBTreeItems/nextTreeSetItems/nextGenericKeyIter, '
+                   'copyRemaining, union_m/intersection_m/difference_m, bucket_sub/or/and, set_isub/ior/ixor/iand, Generic_set_xor, '
+                   'TreeSet_isub/ior/ixor/iand', 'BTrees._base: union, intersection, difference, _set_operation, _SetIteration, '
+                   '_ArithmeticMixin, _MutableSetMixin.__ior__/__iand__/__isub__/__ixor__'],
+        assumptions=COMMON_ASSUME[:1],
     ),
 }
